@@ -331,6 +331,15 @@ def build_args(call):
         def f(o, op, e, p, n):
             an = repo.mod("geodepy.angles")
             T = {"float": float, "dec": an.DECAngle, "hp": an.HPAngle, "gon": an.GONAngle, "dms": an.DMSAngle, "ddm": an.DDMAngle}[n]
+            if op.startswith("round"):
+                return round(o, int(op[5:]))
+            if op == "eq":
+                return (o == o, o == _coord_geo(a))
+            if op == "repr":
+                return (repr(o), str(o))
+            if op == "tm_round":
+                t = o.tm(e, p)
+                return (round(t, 3), t, round(o.cart(e), 3))
             if op == "cart":
                 return o.cart(e)
             if op == "tm":
@@ -544,7 +553,8 @@ def call_strategy(families=False):
         _fd("yyyydoy_to_date", d=_epoch, dot=st.booleans()),
         _fd("angle_fn", x=st.one_of(S.floats(-360, 360), st.sampled_from([0.0, -0.5, 59.0 / 60.0, 179.99999999999, -12.575])),
             f=st.sampled_from(["dec>dec2hp", "dec>dec2gon", "dec>dec2dms", "dec>dec2ddm", "dec>dec2hpa", "hp>hp2dec", "hp>hp2rad", "hp>hp2gon",
-                               "hp>hp2dms", "hp>hp2ddm", "gon>gon2dec", "gon>gon2hp", "gon>gon2rad", "dec>dd2sec"])),
+                               "hp>hp2dms", "hp>hp2ddm", "gon>gon2dec", "gon>gon2hp", "gon>gon2rad", "dec>dd2sec",
+                               "dec>dec2gona", "hp>hp2deca", "hp>hp2gona", "gon>gon2deca", "gon>gon2hpa", "gon>gon2dms", "gon>gon2ddm"])),
         _fd("angle_fn_v", xs=st.lists(S.floats(-360, 360), min_size=1, max_size=6), f=st.sampled_from(["hp2dec_v", "dec2hp_v"])),
         _fd("line_sf", zone=st.integers(1, 60), e1=utm_e, n1=utm_n, e2=utm_e, n2=utm_n, hemi=st.sampled_from(["south", "north"]), ell=st.just("grs80")),
         _fd("enu2xyz", lat=S.floats(-90, 90), lon=S.floats(-180, 180), v=st.lists(S.floats(-1e4, 1e4), min_size=3, max_size=3)),
@@ -590,6 +600,14 @@ def call_strategy(families=False):
             op=st.sampled_from(["round0", "round1", "round2", "round5", "round8", "round1", "round3", "mod", "rmul", "ne", "gt", "str", "absneg", "self",
                                 "to:dec", "to:rad", "to:hp", "to:gon", "to:deca", "to:hpa", "to:gona", "to:dms", "to:ddm"]),
             k=st.sampled_from([2, 0.5, -3, 1.5, 7.25])),
+    ]
+    pool += [
+        _fd("angle_op", c1=st.sampled_from(["dms", "ddm"]), c2=st.sampled_from(["dec", "dms"]), x=S.floats(-360, 360), y=st.just(0.0), op=st.just("mod"),
+            k=st.sampled_from([360, 180, 90, 7.25, 0.5])),
+        _fd("coord_geo", lat=S.floats(-60, -5), lon=S.floats(112, 154), h=st.one_of(st.none(), st.just(0.0), S.floats(-100, 3000)),
+            H=st.one_of(st.none(), S.floats(-100, 3000)), notation=st.sampled_from(["float", "dec", "hp", "gon", "dms", "ddm"]),
+            op=st.sampled_from(["round0", "round2", "round5", "eq", "repr", "tm_round"]), to=st.just("float"),
+            ell=st.just("grs80"), prj=st.just("utm")),
     ]
     pool += [
         _fd("ntv2_obj", file=st.sampled_from(["A", "B"]), lat=S.floats(-34.9, -33.1), lon=S.floats(147.1, 148.9),
